@@ -128,6 +128,8 @@ class Polynomial:
         return other + (-self)
 
     def __pow__(self, power, modulo=None):
+        if power == 0:
+            return self.__class__([[1]])
         *_, last = power_supply(self, power)
         return last
 
@@ -275,6 +277,8 @@ class RationalPolynomial:
         return other + (-self)
 
     def __pow__(self, power, modulo=None):
+        if power == 0:
+            return self.__class__([[1]])
         if power < 0:
             *_, last = power_supply(self, -power)
             return 1 / last
